@@ -18,6 +18,14 @@ if os.path.exists(detlog):
         m = re.match(r"MUTANT (\S+)/(C\d+)/(\w+)/patch.diff check=(C\d+) exit=(\d+) violations=(\d+)", line)
         if m:
             det.setdefault((m.group(2), m.group(3)), {})[m.group(4)] = dict(exit=int(m.group(5)), violations=int(m.group(6)))
+recheck = {}
+for fn in ("recheck_r123.log", "recheck_final.log", "recheck_final_b.log"):     # later files win (final HEAD)
+    fp = os.path.join(valdir, fn)
+    if os.path.exists(fp):
+        for line in open(fp):
+            m = re.match(r"recheck tag=(\S+) (head=\S+ applied=\S+ demo_clean_exit=\d+ demo_mutant_exit=\d+)", line)
+            if m and "applied=no" not in line and "demo_clean_exit=0" in line:
+                recheck[m.group(1)] = m.group(2)
 kept, dropped = [], []
 for prop in sorted(os.listdir(stage)):
     for x in sorted(os.listdir(os.path.join(stage, prop))):
@@ -37,10 +45,11 @@ for prop in sorted(os.listdir(stage)):
         shutil.copy(os.path.join(d, "demo.py"), out)
         notes = open(os.path.join(d, "notes.md")).read() if os.path.exists(os.path.join(d, "notes.md")) else ""
         detections = det.get((prop, x), {})
-        meta = dict(property=prop, name=name, origin="sub-agent given only the property text and a scratch worktree of /repo (round %s)" % (tag or "1"),
+        meta = dict(property=prop, name=name, origin="sub-agent given only the property text and a scratch worktree of /repo (round %s)" % (tag.strip("r_") or "1"),
                     needs_to_manifest=notes[:3000],
                     confirmed=dict(what="scratch worktree of /repo HEAD: demo.py on the clean tree, demo.py with patch.diff applied, then the whole `test` directory with the patch applied",
-                                   result=t),
+                                   result=t,
+                                   recheck_on_final_head=recheck.get(name, "") or "validated on the final HEAD itself (result above)"),
                     detected_by={c: r for c, r in detections.items() if r["exit"] == 1},
                     checks_run=detections,
                     how_to_rerun="selftest/try_mutant.sh seeded/%s/patch.diff %s" % (name, " ".join(sorted(detections)) or prop))
